@@ -853,7 +853,7 @@ def run(ctx):
              'structured + seeded words; (2) HDD: stateless exploration of the nondeterminism tree - a scripted numpy RNG turns every '
              'scalar randint/choice request into a tree node and the explorer re-executes the real HDD for every answer - FULL tree '
              'for EVERY slot pattern (quick: <=12 slots M in {2,4,8}; thorough: <=16 slots M in {2,4,8,16}), deviation-bounded tree '
-             '(<=d answers differ from the first candidate) for 13..20-slot patterns, for orders 16..256 and 5-6 symbol sequences '
+             '(<=d answers differ from the first candidate) for 13..18-slot patterns, for orders 16..256 and 5-6 symbol sequences '
              'over a 9-kind symbol alphabet; on every leaf: exactly one ON per symbol, valid symbols unchanged, kept slot was ON; on '
              'every request: choice only among ON slots; real-RNG outcomes must be leaves of the tree; (3) real-RNG conformance on '
              '2000-slot seeded patterns, 8 seeds, replayed through the scripted RNG; (4) SDD identity on DAC(codeword) for sps in '
